@@ -22,6 +22,9 @@ var (
 	alphaL1  = []string{"a", " ", "\n", "\t", "\"", "'", "\\", "/", "*", "+", ";", "{", "}", "é", "\r"}
 	alphaL2  = []string{"k", "pattern", " ", "\n", "\t", "\"", "'", "\\n", "\\q", "\\\\", "+", ";", "{", "}", "//c\n", "/*c*/", "é", "/*c\né*/", "'y\né'"}
 	alphaL2s = []string{"'x'", "/*c*/", "\"", "a", " ", "    ", "\t", "\n", "+", "\\t", "\\q", "é", "\r\n"}
+	// characters of two, three and four bytes, the replacement character U+FFFD written out (legal text,
+	// and what a decoder answers for invalid bytes), a combining mark; in tokens, strings and comments
+	alphaL2u = []string{"a", " ", "\n", "\"", ";", "{", "}", "é", "€", "\uFFFD", "😀", "e\u0301", "\t", "'\uFFFD'", "/*\uFFFD€*/"}
 	alphaL1t = []string{"a", " ", "\n", "\"", "'", "\\", "/", "*", ";", "{"}
 	// bytes that are not text: NUL, a lone continuation byte, a truncated lead byte, form feed, DEL
 	alphaL1b = []string{"a", " ", "\n", "\"", ";", "{", "}", "\\", "\x00", "\x80", "\xc3", "\f", "\x7f"}
@@ -44,6 +47,8 @@ func Spaces(tier string) []Space {
 			{"L2s-mbk", alphaL2s, "é ", ";", 6, 2},
 			{"L2s-mbd", alphaL2s, "k \"é\"+", ";", 6, 2},
 			{"L2s-mbs", alphaL2s, "u \"é\"; k ", ";", 6, 2},
+			{"L2u", alphaL2u, "", " q r;", 6, 2},
+			{"L2s-mbd2", alphaL2s, "k \"aé€\" + ", ";", 6, 2},
 		}
 	}
 	return []Space{
@@ -64,6 +69,9 @@ func Spaces(tier string) []Space {
 		{"L2s-mbk", alphaL2s, "é ", ";", 5, 2},
 		{"L2s-mbd", alphaL2s, "k \"é\"+", ";", 5, 2},
 		{"L2s-mbs", alphaL2s, "u \"é\"; k ", ";", 5, 2},
+		{"L2u", alphaL2u, "", " q r;", 5, 2},
+		// characters of two and three bytes inside an earlier double-quoted piece (not at its start)
+		{"L2s-mbd2", alphaL2s, "k \"aé€\" + ", ";", 5, 2},
 	}
 }
 
